@@ -29,6 +29,7 @@ type fileHandle struct {
 	data   *fileData
 	pos    int
 	rd, wr bool
+	app    bool // O_APPEND
 	closed bool
 }
 
@@ -222,9 +223,12 @@ func addStoreIntrinsics() {
 
 	// ---- os ----
 	t["os.MkdirAll"] = func(in *Interp, fr *frame, args []value) value { return iface{} }
-	openFile := func(in *Interp, name string, create, trunc, rd, wr bool) value {
+	openFile := func(in *Interp, name string, create, trunc, rd, wr bool, excl ...bool) value {
 		in.point("os.OpenFile " + name)
 		fd, ok := in.files[name]
+		if ok && create && len(excl) > 0 && excl[0] {
+			return tuple{(*value)(nil), in.mkError("open " + name + ": file exists")}
+		}
 		if !ok {
 			if !create {
 				return tuple{(*value)(nil), in.mkError("open " + name + ": no such file or directory")}
@@ -235,13 +239,13 @@ func addStoreIntrinsics() {
 		if trunc {
 			fd.b = nil
 		}
-		cell := value(structure{&fileHandle{name: name, data: fd, rd: rd, wr: wr}})
+		cell := value(structure{&fileHandle{name: name, data: fd, rd: rd, wr: wr, app: len(excl) > 1 && excl[1]}})
 		return tuple{&cell, iface{}}
 	}
 	t["os.OpenFile"] = func(in *Interp, fr *frame, args []value) value {
 		flag := int(asInt64(args[1]))
 		acc := flag & 3
-		return openFile(in, concStr(args[0], "file name"), flag&0x40 != 0, flag&0x200 != 0, acc == 0 || acc == 2, acc == 1 || acc == 2)
+		return openFile(in, concStr(args[0], "file name"), flag&0x40 != 0, flag&0x200 != 0, acc == 0 || acc == 2, acc == 1 || acc == 2, flag&0x80 != 0, flag&0x400 != 0)
 	}
 	t["os.Open"] = func(in *Interp, fr *frame, args []value) value {
 		return openFile(in, concStr(args[0], "file name"), false, false, true, false)
@@ -272,6 +276,9 @@ func addStoreIntrinsics() {
 			return tuple{0, in.mkError("write " + h.name + ": bad file descriptor")}
 		}
 		b := args[1].([]value)
+		if h.app {
+			h.pos = len(h.data.b)
+		}
 		for len(h.data.b) < h.pos+len(b) {
 			h.data.b = append(h.data.b, uint8(0))
 		}
